@@ -340,7 +340,7 @@ class C18(Spec):
 
     def gen(self, rng, tier):
         L = []
-        for tid, v in zoo_cases(rng, tier, ids=MSG_IDS):
+        for tid, v in zoo_cases(rng, tier, ids=MSG_IDS, quick_n=48):   # one protoc process per distinct case
             L.append("4050 %d 0 %s" % (tid, " ".join(map(str, enc_val(ZOO[tid], v, [])))))
         return L
 
